@@ -56,6 +56,7 @@ type vHist struct {
 	f2       bool // inside the region of known finding F2
 	allRoots map[int64]*rNode // reference roots of every version ever committed (incl. deleted)
 	reopened bool
+	f5       bool // inside the region of known finding F5
 }
 
 // lbl returns the label for version-bookkeeping / post-reopen assertions (finding F2 region).
